@@ -936,6 +936,23 @@ fn sc_autoclose_one_owner_two_tokens(t: &mut Tracer) {
     w.close_farm(&c, "m-live", &[]);
 }
 
+/// an emergency exit on an LP token nobody farms yet, by a user who keeps another position there; the farm comes later
+fn sc_emergency_without_any_farm(t: &mut Tracer) {
+    let mut w = W::new(SysCfg::default(), 1, t, "emergency_without_any_farm");
+    let lp = w.lps[0].clone();
+    let (o, b, c) = (w.user(0), w.user(1), w.user(2));
+    w.pos_create(&b, Some("keep".into()), DAY, None, &[coin(1_000, lp.clone())]);
+    w.pos_create(&b, Some("leave".into()), 30 * DAY, None, &[coin(5_000, lp.clone())]);
+    w.pos_create(&c, Some("c".into()), DAY, None, &[coin(1_000, lp.clone())]);
+    w.advance(DAY);
+    w.pos_withdraw(&b, "u-leave", Some(true), &[]);
+    let f = w.fee_funds(&coin(12_000, "uweth"));
+    w.create_farm(&o, &lp, None, None, coin(12_000, "uweth"), Some("late".into()), &f);
+    w.advance(3 * DAY);
+    w.claim(&b, None, &[]);
+    w.claim(&c, None, &[]);
+}
+
 /// the emergency flag on positions that are already unlocked: at the expiry second, 12 hours and 11 days later - no penalty
 fn sc_emergency_flag_after_unlock(t: &mut Tracer) {
     let mut w = W::new(SysCfg::default(), 1, t, "emergency_flag_after_unlock");
@@ -1241,6 +1258,7 @@ pub fn run(rng: &mut StdRng, thorough: bool, t: &mut Tracer) {
     sc_alternating_lp_positions(t);
     sc_unlock_range_narrowed(t);
     sc_emergency_flag_after_unlock(t);
+    sc_emergency_without_any_farm(t);
     sc_autoclose_one_owner_two_tokens(t);
     sc_emergency_with_ended_farm(t);
     sc_pool_manager_on_behalf(t);
